@@ -98,8 +98,11 @@ prop("C14", "proof",
      "non-empty U for n <= 3 (thorough 5), with and without trusted commitment, update_signature, field edits. Known finding F9 (unused randomness leaves) reported, not hidden.",
      "DESIGN.md §10 C14", NOTE_CL)
 prop("C15", "proof",
-     "Proved: an accepted proof has its range proof on e made for the sigma protocol's commitment Ce and passes the five-equation check; completeness of the per-attribute "
-     "two-secret protocol. PARTIAL: completeness of the whole proof for every subset U and rejection of mismatching statements / edited fields are decided by correspondence "
+     "Proved: spok_complete -- COMPLETENESS of the whole proof of knowledge: for every modulus, every number of attributes, every strictly increasing list U of hidden positions, "
+     "every signature the issuer's check accepts and every sequence of logged draws whose random_bits values are not negative, whatever spok_gen returns passes spok_verify "
+     "(nine-response protocol nisp5_complete with its five congruences; per-attribute opening proofs nisp2sec_complete_u; all range proofs boudot_complete; premises: commitment "
+     "key over the issuer modulus, invertible bases -- each checked against the implementation's run by the harness); an accepted proof has its range proof on e made for the "
+     "sigma protocol's commitment Ce and passes the five-equation check. PARTIAL: rejection of mismatching statements / edited fields is decided by correspondence "
      "(integer for integer, logged draws) + sweep over ALL U for n <= 3 (thorough 5). Known finding F9 (unused randomness leaves) reported.", "DESIGN.md §10 C15", NOTE_CL)
 prop("C16", "proof",
      "Proved: boudot_complete -- every proof the honest prover returns verifies, for every modulus, every pair of invertible bases, every interval, every value and every "
